@@ -41,5 +41,16 @@ TEXT = {
         "split over 16 modules); (ii) lifted to Decode: any valid string h++\"1\"++d with 1..4 characters replaced (data: charset character of a different value, either case; prefix: letter for letter of the same case or digit for digit) "
         "is rejected. Correspondence: all weight-1, all weight-2 position pairs and sampled weight 3-4 substitutions of sampled code words (incl. longest) through the real Decode.",
    note="Trusted: Lean kernel (the certificate is checked by kernel evaluation; `#print axioms` shows propext, Classical.choice, Quot.sound only); extractor+harness; generator constants tied by Tie/Bech32. Inherits the C04 ASCII-case assumption."),
+ "C03": dict(ref="DESIGN.md §5 C03",
+   technique="Lean 4 proof (positional-numeral lemmas: the sentence is the base-2^11 expansion of entropy·2^cs + checksum; round trip and canonicity for any 32-byte hash and any list of 2048 distinct words) with regenerated word lists/digests and differential correspondence",
+   text="Lean theorems for every H with 32-byte output and every W with 2048 distinct words: EntropyToMnemonic = the BIP-39 rule stated positionally for entropy lengths 16..64 step 4; MnemonicToEntropy(EntropyToMnemonic e) = e; "
+        "MnemonicToEntropy ws = ok e IFF valid count, all words in W and ws = EntropyToMnemonic e (so every accepted sentence re-encodes to itself); other sizes -> ErrInvalidEntropySize, bad counts/unknown words -> ErrInvalidMnemonic. "
+        "The committed official English/Japanese lists are proved to have 2048 distinct words (kernel check); the tie proves the repository's embedded lists equal them index for index and hash to the official file digests.",
+   note="Trusted: Lean kernel; extractor+harness; SHA-256 abstract in theorems (Lean oracle in the driver); math/big modelled on Nat. F1 (right-padding of decoded entropy) was found by this check and fixed in /repo."),
+ "C06": dict(ref="DESIGN.md §5 C06/C20",
+   technique="Lean 4 proof (loop invariant for the Go index walk; bit-level s-box = truth table; simulation by induction over arbitrary operation histories) with translated s-box, source-text tie and differential correspondence against two independent single-lane references",
+   text="Lean theorems over the model of curl.go/transform.go: transformGeneric never indexes out of range and equals 81 closed-form rounds; on valid encodings each of the 64 lanes undergoes exactly Curl-P-81 (truth table, index walk 364i mod 729) and validity is invariant; "
+        "for EVERY history of Absorb/Squeeze/Reset calls meeting the documented preconditions the observations equal those of 64 independent specification sponges (induction over the history), lane j's outputs depend on lane j's inputs only, rejected calls carry no state change, Squeeze never panics.",
+   note="Trusted: Lean kernel; extractor+harness. Clone is the identity on immutable model values (aliasing is checked by the correspondence run, which interleaves a clone with its original). Histories that violate the documented preconditions (absorb after squeeze, lanes shorter than tritsCount) panic in Go and are outside the quantifier."),
 }
 PENDING = {}
